@@ -6,4 +6,5 @@ CONSTANTS
   Vias <- ViasDeep
   MaxInject = 2
   Spoof = TRUE
-INVARIANTS ReplyIffValid ExactlyOne ToSender ReplyHeader NeverAnswersReply BoundedTraffic
+  RestoreAtTop = TRUE
+INVARIANTS ReplyIffValid ExactlyOne ToSender ReplyHeader NeverAnswersReply BoundedTraffic HistoryIndependence
